@@ -213,3 +213,77 @@ func VT_C12_ConcurrentFirstGet() {
 	}
 	vt.Reach("done")
 }
+
+// Concurrent Removes (and an Add) of one registered name: the registry behaves as a map under some one-at-a-time
+// order - exactly one Remove returns the removed client and exactly one remove transition is reported for it.
+func VT_C12_ConcurrentRemove() {
+	var mu sync.Mutex
+	var changes []Change
+	r := NewRouter(WithOnChange(func(c Change) {
+		mu.Lock()
+		defer mu.Unlock()
+		changes = append(changes, c)
+	}))
+	n := vt.Str("n")
+	a, b := vt.Msg("a"), vt.Msg("b")
+	vt.Assume(vt.MsgID(a) != vt.MsgID(b))
+	r.Add(n, a)
+	changes = nil
+	withAdd := vt.Choose("withAdd", 2) == 1
+	k := 3
+	var wg sync.WaitGroup
+	res := make([]any, k)
+	start := make(chan struct{})
+	for i := 0; i < k; i++ {
+		i := i
+		wg.Add(1)
+		go func() {
+			defer wg.Done()
+			<-start
+			if withAdd && i == 0 {
+				res[i] = r.Add(n, b)
+			} else {
+				res[i] = r.Remove(n)
+			}
+		}()
+	}
+	close(start)
+	wg.Wait()
+	removedA, removedB := 0, 0
+	first := 0
+	if withAdd {
+		first = 1
+	}
+	for i := first; i < k; i++ {
+		if res[i] == any(a) {
+			removedA++
+		}
+		if res[i] == any(b) {
+			removedB++
+		}
+	}
+	reportedA, reportedB := 0, 0
+	for _, c := range changes {
+		if c.New == nil && c.Old == any(a) {
+			reportedA++
+		}
+		if c.New == nil && c.Old == any(b) {
+			reportedB++
+		}
+	}
+	if !withAdd {
+		vt.Assert(removedA == 1, "exactly-one-remove-returns-the-removed-client")
+		vt.Assert(reportedA == 1, "exactly-one-remove-transition-reported")
+		vt.Assert(!r.Has(n), "removed-name-is-gone")
+	} else {
+		// Add(b) replaced a (returns a, nobody removes a) or came after a Remove of a (returns nil)
+		if res[0] == any(a) {
+			vt.Assert(vt.And(removedA == 0, reportedA == 0), "replaced-client-is-not-also-removed")
+		} else {
+			vt.Assert(vt.And(res[0] == nil, removedA == 1, reportedA == 1), "client-removed-before-the-add-is-removed-once")
+		}
+		vt.Assert(vt.And(removedB <= 1, removedB == reportedB), "added-client-removed-at-most-once-and-reported")
+		vt.Assert(r.Has(n) == (removedB == 0), "name-present-iff-the-added-client-was-not-removed")
+	}
+	vt.Reach("done")
+}
